@@ -946,6 +946,41 @@ func specBoolByte(b bool) int {
 //@     invariant (forall s string :: !has(node.variables, s)) ==> allocated() == old(allocated())
 //@     invariant forall s string :: has(itervisited, s) ==> has(result, node.variables[s]) && result[node.variables[s]] == s
 
+// splitValues: the request is partitioned by key shape into two fresh maps; nothing is lost, added or changed.
+//@ func (*ListNode).splitValues
+//@   property C09 C10 C11
+//@   ensures fresh(ellipsisValues) && fresh(otherValues)
+//@   ensures forall k string :: has(ellipsisValues, k) <==> (has(values, k) && re_match(specEllipsisPattern(), k))
+//@   ensures forall k string :: has(otherValues, k) <==> (has(values, k) && !re_match(specEllipsisPattern(), k))
+//@   ensures forall k string :: has(ellipsisValues, k) ==> ellipsisValues[k] == values[k]
+//@   ensures forall k string :: has(otherValues, k) ==> otherValues[k] == values[k]
+//@   loop 1
+//@     invariant fresh(ellipsisValues) && fresh(otherValues)
+//@     invariant forall k string :: has(itervisited, k) ==> has(values, k)
+//@     invariant forall k string :: has(ellipsisValues, k) <==> (has(itervisited, k) && re_match(specEllipsisPattern(), k))
+//@     invariant forall k string :: has(otherValues, k) <==> (has(itervisited, k) && !re_match(specEllipsisPattern(), k))
+//@     invariant forall k string :: has(ellipsisValues, k) ==> ellipsisValues[k] == values[k]
+//@     invariant forall k string :: has(otherValues, k) ==> otherValues[k] == values[k]
+
+// ellipsisAnalysis: with no ellipsis key in the request nothing is to be filled, in this list or below it (which is what
+// keeps ListNode.FillVariables on its substitution-only path); a value that is not an int panics.
+//@ type ListNode view height(box(self, *ListNode)) >= 0
+//@   view forall i int :: 0 <= i && i < len(self.values) ==> 0 <= height(self.values[i]) && height(self.values[i]) < height(box(self, *ListNode))
+
+//@ func (*ListNode).ellipsisAnalysis
+//@   property C10 C09
+//@   maypanic
+//@   decreases height(box(node, *ListNode))
+//@   ensures (forall k string :: !has(values, k)) ==> result == 0
+//@   ensures (forall k string :: has(node.variables, k) ==> re_match(specVarNamePattern(), k)) && (forall i int :: 0 <= i && i < len(node.values) ==> !typeis(node.values[i], *ListNode)) ==> result == 0 && result1 == 0
+//@   loop 1
+//@     invariant (forall k string :: !has(values, k)) ==> ellipsisToFill == 0 && ellipsisValue == 0
+//@     invariant (forall k string :: has(node.variables, k) ==> re_match(specVarNamePattern(), k)) ==> ellipsisToFill == 0 && ellipsisRemaining == 0
+//@   loop 2
+//@     invariant 0 <= rangeindex+1 && rangeindex+1 <= len(node.values)
+//@     invariant (forall k string :: !has(values, k)) ==> ellipsisToFill == 0 && ellipsisValue == 0
+//@     invariant (forall k string :: has(node.variables, k) ==> re_match(specVarNamePattern(), k)) && (forall i int :: 0 <= i && i < len(node.values) ==> !typeis(node.values[i], *ListNode)) ==> ellipsisToFill == 0 && ellipsisRemaining == 0
+
 //@ type ListNode view lvar_off(box(self, *ListNode), 0) == 0
 //@   view forall i int :: 0 <= i && i < len(self.values) ==> lvar_off(box(self, *ListNode), i+1) == lvar_off(box(self, *ListNode), i) + ite(typeis(self.values[i], emptyItemNode), 1, nvars(self.values[i]))
 
@@ -1565,36 +1600,121 @@ func racASCIIBoundsSurviveListFills() bool {
 
 //@ func newFillState
 //@   property C10
-//@   ensures fresh(result) && result.currentDimension == 0 && len(result.currentIndices) == 0 && result.ellipsisCount == 0
+//@   ensures fresh(result) && fresh(result.currentIndices) && result.currentDimension == 0 && len(result.currentIndices) == 0 && result.ellipsisCount == 0
 //@   ensures result.multipleEllipsis == (remainingEllipsisCount > 1)
 
 //@ func (*fillState).growDimension
 //@   property C10
 //@   modifies state.currentDimension, state.currentIndices, state.currentIndices[0]
-//@   requires 0 <= state.currentDimension && state.currentDimension <= len(state.currentIndices) && state.currentDimension < 9223372036854775807
+//@   panics_iff !(0 <= state.currentDimension && state.currentDimension <= len(state.currentIndices))
 //@   let d = old(state.currentDimension)
 //@   ensures state.currentDimension == d + 1 && state.currentDimension <= len(state.currentIndices) && state.currentIndices[d] == 0
 //@   ensures forall k int :: 0 <= k && k < d ==> state.currentIndices[k] == old(state.currentIndices[k])
 //@   ensures state.ellipsisCount == old(state.ellipsisCount) && state.multipleEllipsis == old(state.multipleEllipsis)
+//@   ensures fresh(state.currentIndices) || ref(state.currentIndices) == old(ref(state.currentIndices))
 
 //@ func (*fillState).exitDimension
 //@   property C10
 //@   modifies state.currentDimension
-//@   requires 1 <= state.currentDimension
+//@   requires state.currentDimension > -9223372036854775808
 //@   ensures state.currentDimension == old(state.currentDimension) - 1
 
 //@ func (*fillState).getCurrentDimensionIndex
 //@   property C10
-//@   requires 1 <= state.currentDimension && state.currentDimension <= len(state.currentIndices)
+//@   panics_iff !(1 <= state.currentDimension && state.currentDimension <= len(state.currentIndices))
 //@   ensures result == state.currentIndices[state.currentDimension-1]
 
 //@ func (*fillState).growIndex
 //@   property C10
 //@   modifies state.currentIndices[0]
-//@   requires 1 <= state.currentDimension && state.currentDimension <= len(state.currentIndices) && state.currentIndices[state.currentDimension-1] < 9223372036854775807
+//@   panics_iff !(1 <= state.currentDimension && state.currentDimension <= len(state.currentIndices))
 //@   let d = state.currentDimension
-//@   ensures state.currentIndices[d-1] == old(state.currentIndices[d-1]) + 1
+//@   ensures old(state.currentIndices[d-1]) < 9223372036854775807 ==> state.currentIndices[d-1] == old(state.currentIndices[d-1]) + 1
 //@   ensures forall k int :: 0 <= k && k < len(state.currentIndices) && k != d-1 ==> state.currentIndices[k] == old(state.currentIndices[k])
+
+// getNewVariableName: an ellipsis is renumbered from the counter when several remain and called "..." otherwise; any other
+// name keeps its text and gets one "[index]" per open dimension appended (so the original name is a prefix of the new one and
+// is returned unchanged outside every repetition). Only the ellipsis counter is written.
+//@ func (*fillState).getNewVariableName
+//@   property C10
+//@   modifies state.ellipsisCount
+//@   let isell = re_match(specEllipsisPattern(), name)
+//@   panics_only_if !isell && state.currentDimension > len(state.currentIndices)
+//@   ensures !(isell && state.multipleEllipsis) ==> state.ellipsisCount == old(state.ellipsisCount)
+//@   ensures isell && !state.multipleEllipsis ==> result == "..."
+//@   ensures isell && state.multipleEllipsis ==> result == sprintf_d("...[", old(state.ellipsisCount)) + "]"
+//@   ensures isell && state.multipleEllipsis && old(state.ellipsisCount) < 9223372036854775807 ==> state.ellipsisCount == old(state.ellipsisCount) + 1
+//@   ensures !isell && state.currentDimension == 0 ==> result == name
+//@   ensures !isell ==> len(result) >= len(name) && (forall j int :: 0 <= j && j < len(name) ==> result[j] == name[j])
+//@   loop 1
+//@     invariant 0 <= i && (state.currentDimension >= 0 ==> i <= state.currentDimension) && state.ellipsisCount == old(state.ellipsisCount)
+//@     invariant i == 0 ==> name == name0
+//@     invariant len(name) >= len(name0) && (forall j int :: 0 <= j && j < len(name0) ==> name[j] == name0[j])
+
+// fillEllipsis (thin contract: discipline of the index state, frame, result shape): the expansion writes nothing but the
+// fill state it was handed and memory it allocated itself, returns a fresh list, and - when every requested count is
+// non-negative - leaves the dimension counter where it found it (each dimension it opens is closed again), which is what
+// lets the enclosing expansion continue with its own index. What the expanded list contains is decided by the bounded
+// reference-expander oracle, not here.
+//@ func (*ListNode).fillEllipsis
+//@   property C10 C11
+//@   maypanic
+//@   decreases height(box(node, *ListNode))
+//@   modifies state.currentDimension, state.currentIndices, state.currentIndices[0], state.ellipsisCount
+//@   let nonneg = forall k string :: has(values, k) && typeis(values[k], int) ==> ival(values[k]) >= 0
+//@   ensures typeis(result, *ListNode) && fresh(result)
+//@   ensures nonneg ==> state.currentDimension == old(state.currentDimension)
+//@   ensures state.multipleEllipsis == old(state.multipleEllipsis)
+//@   ensures fresh(state.currentIndices) || ref(state.currentIndices) == old(ref(state.currentIndices))
+//@   loop 1
+//@     invariant ellipsisPosition == -1 && ellipsisValue == 0 && state.currentDimension == old(state.currentDimension)
+//@     invariant ref(state.currentIndices) == old(ref(state.currentIndices))
+//@   loop 2
+//@     invariant fresh(nodeValues) && 0 <= i
+//@     invariant ellipsisPosition == -1 || (1 <= ellipsisPosition && ellipsisPosition < len(node.values))
+//@     invariant nonneg ==> ellipsisValue >= 0
+//@     invariant fresh(state.currentIndices) || ref(state.currentIndices) == old(ref(state.currentIndices))
+//@     invariant nonneg && ellipsisPosition >= 0 && ellipsisValue > 0 && i <= ellipsisPosition ==> state.currentDimension == old(state.currentDimension) + 1
+//@     invariant nonneg && !(ellipsisPosition >= 0 && ellipsisValue > 0 && i <= ellipsisPosition) ==> state.currentDimension == old(state.currentDimension)
+//@   loop 3
+//@     invariant fresh(fill)
+//@     invariant nonneg && ellipsisPosition >= 0 && ellipsisValue > 0 && i <= ellipsisPosition ==> state.currentDimension == old(state.currentDimension) + 1
+//@     invariant nonneg && !(ellipsisPosition >= 0 && ellipsisValue > 0 && i <= ellipsisPosition) ==> state.currentDimension == old(state.currentDimension)
+//@     invariant fresh(state.currentIndices) || ref(state.currentIndices) == old(ref(state.currentIndices))
+
+// ListNode.FillVariables, substitution path (C09): when the request names no ellipsis, the result is the list rebuilt
+// through the checked factory with every child replaced by its own fill (same request minus ellipsis keys) and every own
+// variable position replaced by the value given for it - inserted as is, so an item keeps its own variables and a string
+// renames the variable - or kept under its name at its position when the request does not mention it. Unknown keys change
+// nothing. (With ellipsis keys the list is first expanded by fillEllipsis - thin contract above, content decided by the
+// bounded reference expander - and the same substitution is then applied to the expanded list.)
+//@ func (*ListNode).FillVariables
+//@   property C09 C10 C11 C12
+//@   maypanic
+//@   let noell = forall k string :: has(values, k) ==> !re_match(specEllipsisPattern(), k)
+//@   let r = cast(result, *ListNode)
+//@   let n = len(node.values)
+//@   ensures typeis(result, *ListNode) && fresh(result)
+//@   ensures noell ==> len(r.values) == n
+//@   ensures noell ==> forall s string :: has(node.variables, s) && !has(values, s) ==> has(r.variables, s) && r.variables[s] == node.variables[s]
+//@   ensures noell ==> forall s string :: has(node.variables, s) && has(values, s) && typeis(values[s], ItemNode) ==> r.values[node.variables[s]] == values[s]
+//@   ensures noell ==> forall s string :: has(node.variables, s) && has(values, s) && typeis(values[s], string) ==> has(r.variables, sval(values[s])) && r.variables[sval(values[s])] == node.variables[s]
+//@   ensures noell ==> forall p int :: 0 <= p && p < n && !typeis(node.values[p], emptyItemNode) ==> typeis(r.values[p], ItemNode) && r.values[p] != nil
+//@   loop 1
+//@     invariant 0 <= rangeindex+1 && rangeindex+1 <= len(nodeEllipsisFilled.values) && len(nodeValues) == rangeindex+1 && fresh(nodeValues)
+//@     invariant fresh(otherValues) && (noell ==> nodeEllipsisFilled == node)
+//@     invariant forall k string :: has(otherValues, k) <==> (has(values, k) && !re_match(specEllipsisPattern(), k))
+//@     invariant forall k string :: has(otherValues, k) ==> otherValues[k] == values[k]
+//@     invariant forall k int :: 0 <= k && k <= rangeindex ==> nodeValues[k] == fill_of(nodeEllipsisFilled.values[k], ref(otherValues))
+//@   loop 2
+//@     invariant len(nodeValues) == len(nodeEllipsisFilled.values) && fresh(nodeValues)
+//@     invariant fresh(otherValues) && (noell ==> nodeEllipsisFilled == node)
+//@     invariant forall k string :: has(otherValues, k) <==> (has(values, k) && !re_match(specEllipsisPattern(), k))
+//@     invariant forall k string :: has(otherValues, k) ==> otherValues[k] == values[k]
+//@     invariant noell ==> forall s string :: has(itervisited, s) ==> has(node.variables, s)
+//@     invariant noell ==> forall s string :: has(itervisited, s) && has(values, s) ==> nodeValues[node.variables[s]] == values[s]
+//@     invariant noell ==> forall s string :: has(itervisited, s) && !has(values, s) ==> typeis(nodeValues[node.variables[s]], string) && sval(nodeValues[node.variables[s]]) == s
+//@     invariant noell ==> forall p int :: 0 <= p && p < n && (forall s string :: has(itervisited, s) ==> node.variables[s] != p) ==> nodeValues[p] == fill_of(node.values[p], ref(otherValues))
 
 // ---------------------------------------------------------------------------------------------
 // C10 (bounded only): ellipsis expansion against an independent reference expander written from the ListNode documentation and
